@@ -218,6 +218,25 @@ pub fn codec(r: &mut Rng, n: u64, thorough: bool, out: &mut Out) {
             out.line(&format!("codec {} {}", case, run_dec(&bytes)));
             case += 1;
         }
+        // registries of many entries (around 1024 and 4096), smallest possible entries, the last one referring to the first
+        for n in [1023u32, 1024, 1025, 1100, 4096, 4097] {
+            let types: Vec<PortableType> = (0..n)
+                .map(|i| {
+                    let d: scale_info::TypeDef<PortableForm> = if i == 0 {
+                        TypeDefPrimitive::U8.into()
+                    } else {
+                        scale_info::TypeDefSequence::new((if i % 2 == 0 { n - 1 } else { i - 1 }).into()).into()
+                    };
+                    PortableType::new(i, Type::new(Path::from_segments_unchecked(Vec::<String>::new()), Vec::new(), d, Vec::new()))
+                })
+                .collect();
+            let reg = PortableRegistry { types };
+            let (bytes, s) = run_enc(&reg);
+            out.line(&format!("codec {} {}", case, s));
+            case += 1;
+            out.line(&format!("codec {} {}", case, run_dec(&bytes)));
+            case += 1;
+        }
         // list lengths at the 2-byte / 4-byte compact boundary (cheap elements)
         for len in [16383usize, 16384] {
             let tup = TypeDefTuple::new_portable((0..len).map(|k| ((k % 3) as u32).into()).collect::<Vec<_>>());
